@@ -9,6 +9,7 @@ import (
 	"encoding/json"
 	"fmt"
 	"os"
+	"os/exec"
 	"path/filepath"
 	"sort"
 	"strconv"
@@ -283,4 +284,65 @@ func Workers() int {
 		return n
 	}
 	return 16
+}
+
+// RacePass runs the native -race supplement (cmd/racepass, built next to this
+// binary) for the property and folds its verdict into the report. A data race
+// whose report mentions a gomqtt package is a violation; the pass is sampling
+// over schedules (one native run per program) and never counts as exhaustive.
+func (r *Report) RacePass() {
+	exe, err := os.Executable()
+	if err != nil {
+		return
+	}
+	bin := filepath.Join(filepath.Dir(exe), "racepass")
+	if _, err := os.Stat(bin); err != nil {
+		r.Extra["race_pass"] = "not built"
+		return
+	}
+	t0 := time.Now()
+	cmd := exec.Command(bin, r.ID)
+	cmd.Env = append(os.Environ(), "GORACE=halt_on_error=0 exitcode=0")
+	var errb, outb strings.Builder
+	cmd.Stderr = &errb
+	cmd.Stdout = &outb
+	runErr := cmd.Run()
+	reports := strings.Split(errb.String(), "WARNING: DATA RACE")
+	n := len(reports) - 1
+	var programs, runs int
+	fmt.Sscanf(strings.TrimSpace(outb.String()), "RACEPASS programs=%d runs=%d", &programs, &runs)
+	r.Extra["race_pass"] = map[string]interface{}{"programs": programs, "runs": runs, "reports": n, "wall_s": time.Since(t0).Seconds(),
+		"note": "non-deciding supplement: native -race run of every 2-3 thread program over the conflict-forced alphabet; catches unsynchronised accesses the cooperative scheduler cannot see"}
+	fmt.Printf("  [%s] race-pass programs=%d runs=%d data-race-reports=%d wall=%.1fs\n", r.ID, programs, runs, n, time.Since(t0).Seconds())
+	if runErr != nil && n == 0 {
+		fmt.Fprintf(os.Stderr, "ENGINE ERROR: race pass failed: %v\n%s\n", runErr, firstLines(errb.String(), 30))
+		os.Exit(2)
+	}
+	seen := map[string]bool{}
+	for _, rep := range reports[1:] {
+		if !strings.Contains(rep, "github.com/256dpi/gomqtt/") {
+			continue
+		}
+		// signature: the gomqtt functions on top of the two stacks
+		var fns []string
+		for _, l := range strings.Split(rep, "\n") {
+			l = strings.TrimSpace(l)
+			if strings.HasPrefix(l, "github.com/256dpi/gomqtt/") {
+				fn := l
+				if i := strings.Index(fn, "("); i > 0 {
+					fn = fn[:i]
+				}
+				fns = append(fns, strings.TrimPrefix(fn, "github.com/256dpi/gomqtt/"))
+				if len(fns) == 2 {
+					break
+				}
+			}
+		}
+		sig := "data-race:" + strings.Join(fns, "|")
+		if seen[sig] {
+			continue
+		}
+		seen[sig] = true
+		r.Viol = append(r.Viol, explore.Violation{Harness: "racepass", Params: r.ID, Clause: "no-data-race", Sig: sig, Msg: "the race detector reports a data race between library operations (native run, no scheduler):\nWARNING: DATA RACE" + firstLines(rep, 40)})
+	}
 }
